@@ -807,11 +807,11 @@ def _body(res, quick, obs, model, records, proved, repo):
     regular = {r["name"] for r in records if r["regular"]}
     irregular = sorted(r["name"] for r in records if not r["regular"])
 
-    per_fn = 300 if quick else 4500
-    ncodec = 700 if quick else 10000
-    nmal = 500 if quick else 8000
-    njson = 2000 if quick else 30000
-    ntext = 1500 if quick else 20000
+    per_fn = 500 if quick else 4500
+    ncodec = 1200 if quick else 10000
+    nmal = 800 if quick else 8000
+    njson = 3000 if quick else 30000
+    ntext = 2500 if quick else 20000
 
     # ---- cases (corpus first, then generated)
     lines = []
@@ -824,31 +824,32 @@ def _body(res, quick, obs, model, records, proved, repo):
         meta[cid] = info
         return cid
 
-    corpus = [
-        ("strings.repeat", ["s:61", "i:-1"]), ("bytes.repeat", ["b:616263", "i:-1"]), ("byte_slice.repeat", ["b:6162", "i:-3"]),
-        ("strings.repeat", ["s:6162", "i:%d" % (2 ** 62)]), ("byte_slice.contains_rune", ["b:c3a9", "s:c3a9"]),
-        ("bytes.index_rune", ["b:61c3a9", "s:c3a9"]), ("math.abs", ["f:8000000000000000"]),
-        ("strings.split", ["s:612c62", "s:"]), ("strings.index", ["s:e4b896e7958c", "s:e7958c"]),
-        ("string.join", ["s:2c", "l:2 s:78 b:79"]), ("strconv.parse_int", ["s:7a", "i:36"]),
-    ]
-    wcases = corpus + gen_wrapper_cases(rng, specs, per_fn)
+    corpus = {"W": [], "C": [], "D": [], "J": [], "K": []}
+    cpath = os.path.join(C.VERIF, "corpus", PROP, "cases.tsv")
+    if os.path.exists(cpath):
+        for line in open(cpath):
+            f = line.rstrip("\n").split("\t")
+            if f[0] in corpus and len(f) >= 2:
+                corpus[f[0]].append(f[1:])
+    wcases = [(f[0], f[1].split(" ") if len(f) > 1 and f[1] else []) for f in corpus["W"]] + gen_wrapper_cases(rng, specs, per_fn)
     for fname, args in wcases:
         for route in ("api", "script"):
             add("W", [fname, route, " ".join(args)], {"fname": fname, "route": route, "args": args})
-    jcorpus = ["i:9007199254740993", "i:9007199254740992", "n", "s:ff61", "l:2 b:6162 m:1 k:61 f:3ff8000000000000",
-               "m:1 k:61 l:3 i:1 f:4004000000000000 n"]
     for codec in BYTE_CODECS:
-        for v in gen_codec_values(rng, ncodec):
+        for v in [f[1] for f in corpus["C"] if f[0] == codec] + gen_codec_values(rng, ncodec):
             for route in ("api", "script"):
                 add("C", [codec, route, v], {"codec": codec, "route": route, "value": v})
-        for v in gen_malformed(rng, codec, nmal):
+        for v in [f[1] for f in corpus["D"] if f[0] == codec] + gen_malformed(rng, codec, nmal):
             for route in ("api", "script"):
                 add("D", [codec, route, v], {"codec": codec, "route": route, "value": v})
-    for v in jcorpus + [gen_json_value(rng, 3) for _ in range(njson)]:
+    jvals = [gen_json_value(rng, 3) for _ in range(njson)]
+    for v in [f[1] for f in corpus["C"] if f[0] == "json"] + jvals:
         for route in ("api", "script"):
             add("C", ["json", route, v], {"codec": "json", "route": route, "value": v})
+    for v in [f[0] for f in corpus["J"]] + jvals:
+        for route in ("api", "script"):
             add("J", [route, v], {"route": route, "value": v})
-    for v in gen_json_texts(rng, ntext):
+    for v in [f[0] for f in corpus["K"]] + gen_json_texts(rng, ntext):
         for route in ("api", "script"):
             add("K", [route, v], {"route": route, "value": v})
 
